@@ -6,7 +6,7 @@ use itertools::Itertools;
 use rustc_ast::ast;
 use rustc_span::{BytePos, Span};
 
-use crate::comment::combine_strs_with_missing_comments;
+use crate::comment::{combine_strs_with_missing_comments, find_comment_end};
 use crate::config::lists::*;
 use crate::expr::rewrite_field;
 use crate::items::{rewrite_struct_field, rewrite_struct_field_prefix};
@@ -140,19 +140,14 @@ pub(crate) fn rewrite_with_alignment<T: AlignedItem>(
             // 1 = "\n"
             missing_span.lo() + BytePos(offset as u32 + 1)
         } else if snippet.trim_start().starts_with("/*") {
-            let comment_lines = snippet
-                .lines()
-                .position(|line| line.trim_end().ends_with("*/"))
-                .unwrap_or(0);
+            // Cut after the line on which the block comment ends.
+            let start = snippet.len() - snippet.trim_start().len();
+            let comment_end = find_comment_end(&snippet[start..]).map_or(start, |end| start + end);
+            let offset = snippet[comment_end..]
+                .find('\n')
+                .map_or(snippet.len(), |i| comment_end + i + 1);
 
-            let offset = snippet
-                .lines()
-                .take(comment_lines + 1)
-                .collect::<Vec<_>>()
-                .join("\n")
-                .len();
-
-            missing_span.lo() + BytePos(offset as u32 + 1)
+            missing_span.lo() + BytePos(offset as u32)
         } else {
             missing_span.lo()
         }
